@@ -177,8 +177,8 @@ func buildGrammar() {
 	// --- ranges: plain, empty, inverted, unbounded, inside __oxia/, user range that spans __oxia/
 	// (in oxia's slash order  a < b < __oxia/... < a/b  because keys without '/' sort first and "__oxia" < "a")
 	for _, r := range [][2]string{{"a", "c"}, {"a", "a"}, {"c", "a"}, {"", ""}, {"", "b"}, {"a", ""},
-		{"__oxia/", "__oxia//"}, {"__oxia/notifications/", "__oxia/notifications//"}, {"__oxia/term", "__oxia/term-options"},
-		{"a", "a/c"}, {"a/", "a//"}, {"a/c", "a"}} {
+		{"a", "a/c"}, {"a/", "a//"}, {"a/c", "a"},
+		{"__oxia/notifications/", "__oxia/notifications//"}, {"__oxia/", "__oxia//"}, {"__oxia/term", "__oxia/term-options"}} {
 		r := r
 		fam := "range"
 		switch {
@@ -365,7 +365,13 @@ func classifyErr(g gen, req *proto.WriteRequest, err error) string {
 	undecodable := strings.Contains(s, "Deserialize") || strings.Contains(s, "proto:")
 	if len(req.DeleteRanges) > 0 && undecodable {
 		// the range covers __oxia/notifications/... whose values are NotificationBatch, not StorageEntry
-		return "delete-range:undecodable-internal-entry-infra-error"
+		for _, r := range req.DeleteRanges {
+			if strings.HasPrefix(r.StartInclusive, "__oxia/") {
+				return "delete-range:internal-range-undecodable-entry-infra-error"
+			}
+		}
+		// a range that starts in user space and merely spans the internal keys in slash order
+		return "delete-range:user-range-spanning-internal-keys-infra-error"
 	}
 	if undecodable {
 		for _, p := range req.Puts {
@@ -450,6 +456,10 @@ func runLog(log []int) outcome {
 		if nondet && (strings.HasPrefix(key, "replica-divergence") || strings.HasPrefix(key, "reopen")) {
 			// one root cause: PebbleBatch.RangeScan hands Pebble two empty non-nil bounds
 			key = "delete-range:empty-bounds-nondeterministic"
+		}
+		if nondet && key != "delete-range:empty-bounds-nondeterministic" {
+			// whatever else such a log shows is shown by logs whose outcome is a function of the input
+			return
 		}
 		out.viols = append(out.viols, ev.Violation{Key: key, Harness: "c13-grammar", Message: msg, Replay: replay})
 	}
@@ -683,10 +693,43 @@ func startLeader(scratch string, log []int) (*node, []string) {
 	}
 	var werrs []string
 	for _, gi := range log {
-		_, err := n.lc.WriteBlock(context.Background(), roundtrip(gens[gi].build()))
-		werrs = append(werrs, errStr(err))
+		_, err, pan := publicWrite(n.lc, roundtrip(gens[gi].build()))
+		if pan != nil {
+			werrs = append(werrs, fmt.Sprintf("PANIC: %v", pan))
+		} else {
+			werrs = append(werrs, errStr(err))
+		}
 	}
 	return n, werrs
+}
+
+// publicWrite sends the request through the real public RPC handlers (no network): the unary Write handler, or
+// the WriteStream body when the request carries no shard id (on that route the shard comes from the call metadata).
+func publicWrite(lc server.LeaderController, req *proto.WriteRequest) (resp *proto.WriteResponse, err error, pan any) {
+	defer func() {
+		if r := recover(); r != nil {
+			pan = r
+		}
+	}()
+	ctx, cancel := context.WithTimeout(context.Background(), 60*time.Second) // safety net only, never an oracle
+	defer cancel()
+	if req.Shard == nil {
+		resp, err = server.VerifC13PublicWriteStream(ctx, lc, req)
+	} else {
+		resp, err = server.VerifC13PublicWrite(ctx, lc, req)
+	}
+	return
+}
+
+// acceptedIntoLog decides, by running the code under test, whether the public RPC layer lets the request reach the WAL.
+func acceptedIntoLog(scratch string, gi int) (accepted bool, detail string) {
+	n, _ := startLeader(scratch, nil)
+	defer n.stop()
+	w := server.VerifLeaderWal(n.lc)
+	before := w.LastOffset()
+	_, err, pan := publicWrite(n.lc, roundtrip(gens[gi].build()))
+	after := w.LastOffset()
+	return after > before, fmt.Sprintf("err=%v panic=%v wal %d->%d", err, pan, before, after)
 }
 
 func (n *node) stop() {
@@ -695,7 +738,10 @@ func (n *node) stop() {
 	}
 	_ = n.rpc.Close()
 	_ = n.walF.Close()
-	n.st.close()
+	// The KV factory (1 MiB block cache) is deliberately not closed: leaderController.list closes its iterator from a
+	// goroutine that may still be running after Close() returned (session manager Initialize -> ListBlock), and an
+	// iterator closed after the cache was released crashes inside Pebble. The databases themselves are closed by lc.Close().
+	fsReg.Delete(n.st.dir)
 	_ = os.RemoveAll(n.wdir)
 }
 
@@ -814,13 +860,38 @@ func main() {
 	}
 	deadline := time.Now().Add(budget)
 
+	// which requests of the grammar are really accepted into the log? (ask the real public RPC handlers)
+	var acc []int
+	var rejected []string
+	for gi := range gens {
+		ok, detail := acceptedIntoLog(scratch, gi)
+		if ok {
+			acc = append(acc, gi)
+		} else {
+			rejected = append(rejected, gens[gi].name+": "+detail)
+		}
+	}
+	run.Add("grammar_requests_accepted_into_log", int64(len(acc)))
+	run.Add("grammar_requests_rejected_before_logging", int64(len(rejected)))
+	run.Coverage["rejected_before_logging"] = rejected
+	// the unary handler dereferences the optional shard field (not a C13 matter, recorded as an observation)
+	func() {
+		nd, _ := startLeader(scratch, nil)
+		defer nd.stop()
+		defer func() {
+			if r := recover(); r != nil {
+				run.Note(fmt.Sprintf("observation (outside C13): publicRpcServer.Write panics on a WriteRequest without shard id: %v", r))
+			}
+		}()
+		_, _ = server.VerifC13PublicWrite(context.Background(), nd.lc, &proto.WriteRequest{Puts: []*proto.PutRequest{{Key: "a"}}})
+	}()
 	n := len(gens)
 	var logs [][]int
-	for i := 0; i < n; i++ {
+	for _, i := range acc {
 		logs = append(logs, []int{i})
 	}
-	for i := 0; i < n; i++ {
-		for j := 0; j < n; j++ {
+	for _, i := range acc {
+		for _, j := range acc {
 			logs = append(logs, []int{i, j})
 		}
 	}
@@ -831,8 +902,8 @@ func main() {
 	nseq := 0
 	if run.Tier == "thorough" {
 		var sq []int
-		for i, g := range gens {
-			if g.seq {
+		for _, i := range acc {
+			if gens[i].seq {
 				sq = append(sq, i)
 			}
 		}
@@ -856,6 +927,9 @@ func main() {
 			return viols[i].Key < viols[j].Key
 		}
 		a, b := idxOf(viols[i]), idxOf(viols[j])
+		if na, nb := hasNondet(a), hasNondet(b); na != nb {
+			return nb
+		}
 		if len(a) != len(b) {
 			return len(a) < len(b)
 		}
@@ -875,10 +949,11 @@ func main() {
 	}
 	// end-to-end consequence for the minimal log of every violation key
 	perKey := map[string]int{}
+	e2eByKey := map[string]any{}
 	for i := range viols {
 		v := &viols[i]
 		perKey[v.Key]++
-		if perKey[v.Key] == 1 {
+		if perKey[v.Key] == 1 && v.Key != "delete-range:empty-bounds-nondeterministic" {
 			var log []int
 			for _, nm := range logOf(*v) {
 				log = append(log, genByName[nm])
@@ -895,6 +970,7 @@ func main() {
 				r.WriteErrs, r.BecomeLeader2, r.Restart, r.BecomeLeader3)
 			rp := v.Replay.(map[string]any)
 			rp["e2e"] = r
+			e2eByKey[v.Key] = map[string]any{"log": logOf(*v), "result": r}
 		}
 		if perKey[v.Key] <= 25 {
 			run.Violate(*v)
@@ -910,6 +986,7 @@ func main() {
 		run.Violate(ev.Violation{Key: "e2e-control-failed", Harness: "c13-e2e", Message: fmt.Sprintf("healthy log blocks the leader: %+v", ctl)})
 	}
 	run.Add("logs_where_a_client_delete_erased_the_term_record", termErased.Load())
+	run.Coverage["e2e_by_violation_key"] = e2eByKey
 	run.Coverage["grammar_size"] = n
 	run.Coverage["sequence_grammar_size"] = nseq
 	fam := map[string]int{}
@@ -921,12 +998,21 @@ func main() {
 	run.Sample(map[string]any{"log": []string{"put(\"p-!\")", "seqput(p,pk=true,ev=false,deltas=[1])"}})
 	run.Sample(map[string]any{"log": []string{"put(a)", "range[a,a/c)"}})
 	run.Assume = []string{
-		"requests reach the log unvalidated: publicRpcServer.Write/WriteStream and leaderController.write append the client's WriteRequest as is (checked by reading the code; the end-to-end runs go through LeaderController.WriteBlock)",
+		"membership of a request in the grammar is decided by the code under test: each generator is sent through the real public RPC handlers (publicRpcServer.Write, procesWriteStream) to a real RF=1 leader and kept only if the WAL grew (currently all are: neither handler nor leaderController.write validates anything before appending)",
 		"repeated fields never contain nil elements (impossible on the wire); every request is marshalled and unmarshalled before it is applied",
 		"ProcessWrite is called with server.WrapperUpdateOperationCallback, the callback used by leader, follower and replay",
 		"a replica that hit an infrastructure error is not compared further: the follower apply loop returns at that entry",
 	}
 	os.Exit(run.Finish("every request of the grammar applied in the empty state and after every single other request (all ordered pairs; thorough: all ordered triples of the sequence sub-grammar) on three replicas (leader route, follower route with fresh decode, close+reopen after every entry); a case is distinct when its (request families, per-operation statuses / error class) signature differs"))
+}
+
+func hasNondet(log []int) bool {
+	for _, g := range log {
+		if gens[g].nondet {
+			return true
+		}
+	}
+	return false
 }
 
 func doReplay(path string) int {
